@@ -117,6 +117,25 @@ def main(tier):
                     run.sample(h)
                     break
         rejected = validate(run, wd, histories)
+        validated = run.cov["traces_validated_against_impl"]
+        if not rejected:
+            # ---- binding self-test (DESIGN 0.6): sequential histories with one verdict inverted must all be rejected
+            import copy
+            corrupted = []
+            for want in ("replay", "fresh"):
+                for h in histories:
+                    if h[0].get("kind") == "seq" and sum(1 for e in h if e["ev"] == "ret" and e["r"] == want) >= 1 and len(h) <= 12:
+                        h2 = copy.deepcopy(h)
+                        e = [e for e in h2 if e["ev"] == "ret" and e["r"] == want][-1 if want == "replay" else 0]
+                        e["r"] = "fresh" if want == "replay" else "replay"
+                        corrupted.append(h2)
+                        if len(corrupted) % 4 == 0:
+                            break
+            nrej = len(validate(run, wd, corrupted)) if corrupted else 0
+            run.cov["traces_validated_against_impl"] = validated
+            run.extra["binding_selftest"] = {"TraceC02": {"corrupted_histories": len(corrupted), "rejected": nrej}}
+            if nrej != len(corrupted):
+                raise vlib.Inconclusive("binding self-test: TraceC02 accepted %d of %d histories with an inverted verdict" % (len(corrupted) - nrej, len(corrupted)))
         if not rejected and (nreplay == 0 or nfresh == 0):
             raise vlib.Inconclusive("vacuous: the cache never answered %s" % ("replay" if nreplay == 0 else "fresh"))
         for h, pos in rejected:
